@@ -132,6 +132,54 @@ pub fn run_c05(rep: &mut Report) {
     rep.count("double_bit_corruptions", double);
     rep.count("double_bit_corruptions_legitimately_accepted_as_another_byte", double_accepted);
 
+    // ---- the same rule through the bit-serial entry point: every frame on a fresh decoder and directly
+    //      after one frame of each class (a valid frame must yield its byte whatever came before)
+    let prevs: [(&str, Option<u16>); 5] = [
+        ("fresh", None),
+        ("after-valid-frame", Some(encode_frame(0x5A))),
+        ("after-bad-start-frame", Some(0x7FF)),
+        ("after-bad-stop-frame", Some(0x000)),
+        ("after-bad-parity-frame", Some(encode_frame(0xFE) ^ 0x200)),
+    ];
+    let mut serial = 0u64;
+    for (pname, prev) in prevs.iter() {
+        for w in 0..2048u16 {
+            let want: BitRes = frame_expect(w).map(Some);
+            let got = guarded(|| {
+                let mut d = Ps2Decoder::new();
+                if let Some(p) = prev {
+                    for i in 0..11 {
+                        let _ = d.add_bit((p >> i) & 1 == 1);
+                    }
+                }
+                let mut last = Ok(None);
+                for i in 0..11 {
+                    last = d.add_bit((w >> i) & 1 == 1);
+                }
+                last
+            });
+            rep.evaluations += 1;
+            serial += 1;
+            let gs = match &got {
+                Ok(g) => bitres_str(g),
+                Err(p) => format!("PANIC({})", panic_sig(p)),
+            };
+            if got.as_ref().ok() != Some(&want) {
+                let mut ops = Vec::new();
+                if let Some(p) = prev {
+                    ops.push(format!("bits:{}", word_bits(*p)));
+                }
+                ops.push(format!("bits:{}", word_bits(w)));
+                rep.violate(
+                    format!("C05|add_bit|prev={}|word=0x{:03X}|class={}|want={}|got={}", pname, w, frame_class(w), bitres_str(&want), gs),
+                    format!("frame {} ({}) shifted in bit by bit {}: rule says {}, the 11th add_bit returned {}", word_bits(w), frame_class(w), pname, bitres_str(&want), gs),
+                    replay_bits(&ops, &bitres_str(&want), &gs),
+                );
+            }
+        }
+    }
+    rep.count("frames_through_add_bit_fresh_and_after_each_frame_class", serial);
+
     // ---- Keyboard::add_word = frame rule ∘ scancode decoder, in every scancode prefix state
     kb_add_word::<ScancodeSet2>(rep);
     kb_add_word::<ScancodeSet1>(rep);
